@@ -1,4 +1,5 @@
 import FrappyModel.Timed.Poller
+import FrappyModel.Timed.PollFlags
 /-
 C13 — Poller: bounded staleness, no starvation, survives failing reads.
 
@@ -10,14 +11,52 @@ thread is still alive.  The clauses below are written from the statement; they a
 namespace Frappy.Spec.C13
 open Frappy.Poller
 
+/-- what a module was told from outside about its poll interval (by a client changing the `pollinterval` parameter,
+or by driver code switching fast polling), with the time at which it was told -/
+inductive Cmd
+  | setInterval (t : Nat) (v : Nat)                  -- `pollinterval := v`
+  | setFast (t : Nat) (flag : Bool) (v : Nat)        -- `setFastPoll(flag, v)`
+  deriving DecidableEq, Repr, Inhabited
+
+def Cmd.time : Cmd → Nat
+  | .setInterval t _ => t
+  | .setFast t _ _ => t
+
+/-- what a module has been told so far: its poll interval, whether fast polling is switched on, and the fast interval -/
+structure IvState where
+  pollinterval : Nat
+  fast : Bool
+  fastI : Nat
+  deriving DecidableEq, Repr, Inhabited
+
+/-- **the interval the module is to be polled with**: the fast interval while fast polling is switched on, the
+module's poll interval — as it is now, whenever it was set — otherwise -/
+def IvState.inForce (s : IvState) : Nat := if s.fast then s.fastI else s.pollinterval
+
+def cmdStep (s : IvState) : Cmd → IvState
+  | .setInterval _ v => { s with pollinterval := v }
+  | .setFast _ flag v => { s with fast := flag, fastI := v }
+
+/-- `(t, i)`: from the command at time `t` on the module is to be polled with interval `i` -/
+def intervalsFrom (s : IvState) : List Cmd → List (Nat × Nat)
+  | [] => []
+  | c :: cs => (c.time, (cmdStep s c).inForce) :: intervalsFrom (cmdStep s c) cs
+
 /-- what is known about one module of the thread -/
 structure ModInfo where
   enabled : Bool
   slow : Nat
   polled : List Nat
-  /-- `(t, i)`: from time `t` on `PollInfo.interval = i`; ascending in `t`, the first entry is the configured one -/
-  intervals : List (Nat × Nat)
+  /-- the module's poll interval when the thread started -/
+  pollinterval : Nat
+  /-- the commands it was given since, in order of time -/
+  cmds : List Cmd
   deriving Repr, Inhabited
+
+/-- `(t, i)`: from time `t` on the module is to be polled with interval `i`; ascending in `t`, the first entry is the
+configured one.  Computed from what the module was *told* — not from the poller's own bookkeeping. -/
+def ModInfo.intervals (mi : ModInfo) : List (Nat × Nat) :=
+  (0, mi.pollinterval) :: intervalsFrom ⟨mi.pollinterval, false, 0⟩ mi.cmds
 
 structure Trace where
   mods : List ModInfo
@@ -84,6 +123,27 @@ def nPolled (mods : List ModInfo) : Nat :=
 /-- the interval in force just before time `b`, and since when -/
 def inForce (ivs : List (Nat × Nat)) (b : Nat) : Nat × Nat :=
   ivs.foldl (fun cur e => if e.1 < b then e else cur) (0, 0)
+
+/-! ## which parameters are marked as not polled -/
+
+/-- **a parameter is marked as not polled** when the class gives the poller nothing to call for it: there is no read
+function at all, or the read function (or the handler function, or the handler) carries `nopoll`, or the parameter is a
+further key of a common read handler (one call of the handler — polled under its first key — reads them all) -/
+def MarkedNotPolled (d : PollFlags.Decl) : Prop :=
+  match d.kind with
+  | .none => True
+  | .plain => d.inner = true ∨ d.outer = true
+  | .handler => d.inner = true ∨ d.outer = true
+  | .commonFirst => d.inner = true ∨ d.outer = true
+  | .commonRest => True
+
+instance (d : PollFlags.Decl) : Decidable (MarkedNotPolled d) := by
+  unfold MarkedNotPolled; cases d.kind <;> simp only <;> infer_instance
+
+/-- the parameters the poller may read (positions in the module's parameter list): those not marked as not polled -/
+def mayPoll : Nat → List PollFlags.Decl → List Nat
+  | _, [] => []
+  | i, d :: ds => (if MarkedNotPolled d then [] else [i]) ++ mayPoll (i + 1) ds
 
 /-! ## clauses -/
 
@@ -173,7 +233,7 @@ theorem slowRefreshB_iff (tr : Trace) : slowRefreshB tr = true ↔ SlowRefreshBo
 /-! ## statements about the model's own traces (used by the theorems) -/
 
 /-- what is known from outside about a module of the model -/
-def infoOf (m : Mod) : ModInfo := ⟨m.enabled, m.slow, m.polled, [(0, m.interval)]⟩
+def infoOf (m : Mod) : ModInfo := ⟨m.enabled, m.slow, m.polled, m.interval, []⟩
 
 /-- the observable trace of a model run that started in `σ` and made the calls `evs` -/
 def traceOf (σ : PollState) (evs : List Event) (loopStart tEnd eps : Nat) : Trace :=
